@@ -54,6 +54,12 @@ def jobs(tier, seed):
         if gen.count_leaves(p) > 24 or (implicit and gen.count_leaves(p) > 10):
             continue   # the time-order clause reads symbolic schedules: keep those programs small
         out.append({'prog': p, 'implicit': implicit, 'preread': i % 2 == 1})
+    # sub-circuits that are given an explicit relation (FOLLOWED_BY / JOINED_START) to an operation of their parent
+    rng2 = random.Random(seed + 77)
+    for i in range(150 if tier == 'quick' else 600):
+        p = gen.random_program(rng2, alpha, 3, 2, types='FS', p_sub=0.5, p_rel=0.6, reps=reps, sub_rel=True)
+        if gen.count_leaves(p) <= 16:
+            out.append({'prog': p, 'implicit': False, 'preread': i % 4 == 3})
     dmax, cmax = (3, 2) if tier == 'quick' else (3, 4)
     for d in range(2, dmax + 1):
         for cycles in range(0, cmax + 1):
